@@ -363,6 +363,14 @@ func (e *Env) onDBPanic(n *Node, err interface{}) {
 	e.mu.Unlock()
 }
 
+func (e *Env) setAsync(v *Violation) {
+	e.mu.Lock()
+	if e.asyncViolation == nil {
+		e.asyncViolation = v
+	}
+	e.mu.Unlock()
+}
+
 func (e *Env) AsyncViolation() *Violation {
 	e.mu.Lock()
 	defer e.mu.Unlock()
